@@ -237,7 +237,7 @@ pub fn run(_ctx: &Ctx, rep: &mut Report) {
                     }
                 }
                 if stored == 0 {
-                    monitor::machinery_fail("C10 filter mismatch not reproduced");
+                    super::unreproduced("C10 filter mismatch not reproduced");
                 }
                 acc.viol_count = acc.viol_count.max(nbad);
             }
